@@ -69,6 +69,35 @@ func main() {
 		os.Exit(minimiseMain(os.Args[2:]))
 	case "selftest-determinism":
 		os.Exit(selftestDeterminism(os.Args[2:]))
+	case "shrinkrun":
+		// shrinkrun <ID> <run> [tier]: generate, minimise for the first violation class, print
+		chk := core.Get(os.Args[2])
+		r, _ := strconv.Atoi(os.Args[3])
+		tier := "quick"
+		if len(os.Args) > 4 {
+			tier = os.Args[4]
+		}
+		base := envU64("VERIF_SEED", 20250615)
+		c := chk.Gen(core.RunSeed(base, chk.ID(), r), r, tier)
+		c.BaseSeed, c.Run, c.Tier, c.Check, c.Property = base, r, tier, chk.ID(), chk.ID()
+		stdout := os.Stdout
+		setupWorkerProcess()
+		o := execOne(chk, c)
+		if len(o.Violations) == 0 {
+			fmt.Fprintln(stdout, "no violation; inconclusive:", o.Inconclusive)
+			os.Exit(0)
+		}
+		tmpd, _ := os.MkdirTemp("", "shrink")
+		in := filepath.Join(tmpd, "in.json")
+		b, _ := json.Marshal(c)
+		os.WriteFile(in, b, 0o644)
+		outp := filepath.Join(verifDir, "replays", fmt.Sprintf("%s-run%d.min.json", chk.ID(), r))
+		os.MkdirAll(filepath.Dir(outp), 0o755)
+		rc := minimiseMain([]string{in, outp, o.Violations[0].Class})
+		mb, _ := os.ReadFile(outp)
+		fmt.Fprintln(stdout, string(mb))
+		fmt.Fprintln(stdout, "written:", outp)
+		os.Exit(rc)
 	case "gen":
 		// print the case of a run
 		chk := core.Get(os.Args[2])
@@ -77,7 +106,7 @@ func main() {
 		if len(os.Args) > 4 {
 			tier = os.Args[4]
 		}
-		base := envU64("VERIF_SEED", 1)
+		base := envU64("VERIF_SEED", 20250615)
 		c := chk.Gen(core.RunSeed(base, chk.ID(), r), r, tier)
 		c.BaseSeed, c.Run, c.Tier = base, r, tier
 		b, _ := json.MarshalIndent(c, "", " ")
@@ -105,6 +134,10 @@ func execOne(chk core.Check, c *core.Case) (o *core.Outcome) {
 	}()
 	o = chk.Exec(c)
 	o.Run = c.Run
+	if o.Inconclusive != "" {
+		// a run that hit a budget or lost its set-up proves nothing either way
+		o.Violations = nil
+	}
 	if o.Evals == 0 {
 		o.Evals = 1
 	}
@@ -178,7 +211,7 @@ func workerMain(args []string) int {
 		w.WriteByte('\n')
 		w.Flush()
 		for _, v := range o.Violations {
-			if !supp[v.Sig] && wa.StopFile != "" {
+			if !supp[v.Sig] && wa.StopFile != "" && os.Getenv("VGWSIM_STOP_FIRST") != "" {
 				os.WriteFile(wa.StopFile, []byte("x"), 0o644)
 			}
 		}
@@ -525,6 +558,16 @@ func parentRun(args []string) int {
 			}
 			if firstViol == nil {
 				firstViol, firstV = o, v
+			}
+		}
+	}
+	// list every distinct unlisted signature (triage aid)
+	seenSig := map[string]bool{}
+	for _, o := range all {
+		for _, v := range o.Violations {
+			if !suppress[v.Sig] && !seenSig[v.Sig] {
+				seenSig[v.Sig] = true
+				fmt.Fprintf(os.Stderr, "unlisted violation signature (run %d): %s\n    %s\n", o.Run, v.Sig, v.Detail)
 			}
 		}
 	}
